@@ -147,6 +147,9 @@ impl Property for Prop {
         let max_calls = 40_000;
         loop {
             calls += 1;
+            if calls % 64 == 0 && crate::expired() {
+                return;
+            }
             if calls > max_calls {
                 rep.count("trains.call-cap-reached");
                 break;
